@@ -56,7 +56,7 @@ func runC09_7(c *core.Ctx) {
 				return true
 			}
 			var cur *types.Var
-			switch cf.Name() {
+			switch nameOf(cf) {
 			case "Write":
 				cur = a.r
 			case "Read":
